@@ -35,7 +35,8 @@ def make_case(i, rng, tier):
         strict = not recs
     main = common.spec("main", inp["root"], data, inp["cc"], inp["enc"], strict=strict, consumer="binary")
     tasks, sched = common.perturb(rng, [main], p_by=0.3)
-    return {"input": {"root": inp["root"], "cc": inp["cc"], "enc": inp["enc"], "label": inp["label"]},
+    return {"input": {"root": inp["root"], "cc": inp["cc"], "enc": inp["enc"], "label": inp["label"],
+                      "orig": bytes(inp["data"]).hex()},
             "faults": recs, "tasks": tasks, "schedule": sched}
 
 
@@ -93,4 +94,5 @@ def check(case):
 
 
 def shrink(case):
+    yield from common.shrink_faults(case, ("main",))
     yield from common.shrink_tasks(case, {"main"})
